@@ -21,7 +21,9 @@ def classify(op, m):
     return f'{t[0]}:{m.split(" ")[0]}'
 
 
-HOSTS = {b'example.com': [b'https://example.com/', b'https://example.com/a', b'https://www.example.com/w', b'https://example.com:8443/p', b'https://example.com:443/d', b'https://Example.com/Mixed.html', b'https://EXAMPLE.COM:443/U'], b'other.example': [b'https://other.example/', b'https://other.example/x']}
+HOSTS = {b'example.com': [b'https://example.com/', b'https://example.com/a', b'https://www.example.com/w', b'https://example.com:8443/p', b'https://example.com:443/d', b'https://Example.com/Mixed.html', b'https://EXAMPLE.COM:443/U',
+                           # spellings that re-assembling a url.URL from its parts changes (RawPath, ForceQuery)
+                           b'https://example.com/caf%c3%a9.html', b'https://example.com/a%2Fb.js', b'https://example.com/wiki/Go_(game)', b"https://example.com/it's!/*.txt", b'https://example.com/%7Euser/x', b'https://example.com/search?'], b'other.example': [b'https://other.example/', b'https://other.example/x']}
 
 
 def verify_stage(ctx, items):
@@ -87,7 +89,10 @@ def run(ctx):
     signed_all = []
     for step in range(3):
         act = [s for s in seqs if step < len(s['keys']) and s['b']]
-        ops = [f'bsig.sign {s["b"]} {s["rs"]} {chain(s["keys"][step], s["long"][step], s.get("shared"))} {s["keys"][step]["key"]} {hexs(vurl)} {date} {s["dur"]}' for s in act]
+        # the signing instant has a sub-second part (time.Now() always has): date and expires are both floored to whole seconds
+        for s in act:
+            if 'nsec' not in s: s['nsec'] = [0, 600000000, 499999999, 999999999, 500000000, 1][len(signed_all + act) % 6] if s['dur'] != 3600 else rng.choice([0, 0, 700000000])
+        ops = [f'bsig.sign {s["b"]} {s["rs"]} {chain(s["keys"][step], s["long"][step], s.get("shared"))} {s["keys"][step]["key"]} {hexs(vurl)} {date}:{s["nsec"]} {s["dur"]}' for s in act]
         res = ctx.go(ops)
         # cansign tables
         cq = []
